@@ -27,6 +27,8 @@ var vocab = []string{
 	"(", ")", "[", "]", "{", "}", "==", "!=", "<=", ">=", "<", ">", "&&", "||", "+=", "-=", "*=", "/=", "%=", "=", ":=", "++", "--",
 	"!", "+", "-", "*", "/", "%", ",", ":", ";", ".", "@", "|", "\n", "\"", "`", "\"s\"", "0", "1", "-1", "99999999999999999999", "1.5",
 	"x", "f", "f()", "x[0]", "[]int{}", "[]", "\\", "//", "/*", "*/", "\r\n", "\x00", "é", "\xff",
+	// words of Go the language does not have (yet)
+	"make", "append", "cap", "new", "delete", "map", "chan", "go", "defer", "struct", "type", "const", "float64", "byte", "rune", "iota", "goto", "fallthrough", "select", "interface", "package",
 }
 
 // Corrupt returns a mutated copy of src plus a short description.
